@@ -105,6 +105,7 @@ func runtimeOutcome(got []interface{}, err error) string {
 }
 
 func parseWith(path string, funcs, accessor bool, rec *Recorder) (func(interface{}) ([]interface{}, error), error) {
+	noteParse(path, funcs, accessor)
 	if !funcs && !accessor {
 		return jsonpath.Parse(path)
 	}
